@@ -17,12 +17,14 @@ for key in sorted(res):
           "`{}` ({})".format(fv.get("oracle"), fv.get("op_kind")) if fv else "-",
           "{} / {} -> {} ops".format(fv.get("runs"), fv.get("from"), fv.get("to")) if fv else "-"))
 print()
-print("| seeded change | breaks | needs | suite unchanged | demo clean / changed | our check(s) |")
+def fmt(runs):
+    return "; ".join("{} exit {}{}".format(r["cmd"].split("./check ")[1].split()[0], r["exit"],
+                     (" (" + r["violations"][0].split("oracle=")[1].split(" ")[0] + "," + r["violations"][0].split(";")[1].replace("minimised", "") + ")") if r["violations"] else "")
+                     for r in runs)
+print("| seeded change | breaks | what was changed | needs | checks as they stood | checks now |")
 print("|---|---|---|---|---|---|")
 for f in sorted(glob.glob(os.path.join(V, "seeded", "*", "meta.json"))):
     m = json.load(open(f))
-    runs = "; ".join("{} exit {} ({})".format(r["cmd"].split("./check ")[1].split()[0], r["exit"],
-                     (r["violations"][0].split("oracle=")[1].split(" ")[0] + " " + r["violations"][0].split(";")[1].strip()) if r["violations"] else "no violation")
-                     for r in m["ran"])
-    print("| `{}` | {} | {} | {} | {} / {} | {} |".format(m["id"], m["breaks"], m.get("needs", ""), m.get("suite_matches_baseline"),
-          m.get("demo_clean_exit"), m.get("demo_changed_exit"), runs))
+    before = m.get("ran_before_strengthening")
+    print("| `{}` | {} | {} | {} | {} | {} |".format(m["id"], m["breaks"], m.get("what_changed", ""), m.get("needs", ""),
+          fmt(before) if before else "(same)", fmt(m["ran"])))
